@@ -34,6 +34,8 @@ func runC12(c *Ctx) {
 	ruleAppendLockOnlyAroundPut(c, "R12.8")
 	ruleStreamEndDeregisters(c, "R12.2")
 	ruleInProcessStreamNeverWaits(c, "R12.9")
+	ruleQuotaCountsWhatIsCached(c, "R12.11")
+	ruleLockPair(c, "R12.12") // a request for a round that is not there releases the store lock like any other
 	// a stream lives as long as its remote reader wants: nothing the beacon process needs is held across it
 	ruleBlockHeld(c, "R12.10", map[string]bool{"internal/core.BeaconProcess.state": true})
 	c.Floor("R12.10", "blocking operations under the beacon-process lock examined", c.Counts["R12.10"], 1)
